@@ -130,7 +130,8 @@ def r10_3(ctx, R, ms):
         b, fl = m.b, m.fl
         paths = m.all_event_paths(3)
         # a try-adapter: the upstream poll goes through `?`, or its Some(Err(_)) outcome is matched explicitly
-        if not m.branches and not any(e[0] == "U" and e[1] == "Err" for _, ev in paths for e in ev):
+        up_branches = {k_: v_ for k_, v_ in m.branches.items() if v_[1] in m.up_sites}     # `?` on the upstream poll's own result
+        if not up_branches and not any(e[0] == "U" and e[1] == "Err" for _, ev in paths for e in ev):
             continue
         n += 1
         bad = []
